@@ -85,8 +85,10 @@ class Rec(TransmissionObserverInterface):
 
 
 def one_config(acc, cfg):
-    rate, confirmed, length, k, cc, fill = cfg
-    case = {"rate": rate, "confirmed": confirmed, "length": length, "preambles": k, "colour_code": cc, "fill": fill}
+    rate, confirmed, length, k, cc, fill = cfg[:6]
+    sapname = cfg[6] if len(cfg) > 6 else "ShortData"
+    mode = cfg[7] if len(cfg) > 7 else "one_by_one"
+    case = {"rate": rate, "confirmed": confirmed, "length": length, "preambles": k, "colour_code": cc, "fill": fill, "sap": sapname, "mode": mode}
     payload = fill_bytes(fill, length)
     n_ref, pad_ref = ref_blocks_and_pad(rate, confirmed, length)
     if n_ref > 127 or pad_ref > 31:
@@ -101,7 +103,7 @@ def one_config(acc, cfg):
                           "number of blocks / pad octets differ from table 8.1 arithmetic")
         hdr = DataHeader(
             dpf=DataPacketFormats.DataPacketConfirmed if confirmed else DataPacketFormats.DataPacketUnconfirmed,
-            is_group=False, is_response_requested=confirmed, pad_octet_count=pad, sap_identifier=SAPIdentifier.ShortData,
+            is_group=False, is_response_requested=confirmed, pad_octet_count=pad, sap_identifier=SAPIdentifier[sapname],
             llid_destination=2305678, llid_source=2301234, full_message_flag=FullMessageFlag.FirstTryToCompletePacket,
             blocks_to_follow=len(data_bursts), resynchronize_flag=ResynchronizeFlag.DoNotSync, send_sequence_number=0, fragment_sequence_number=8,
         )
@@ -122,9 +124,15 @@ def one_config(acc, cfg):
     term = Terminal(dmrid=1, observers=[rec])
     try:
         with contextlib.redirect_stdout(io.StringIO()):
-            for r in raw:
-                term.process_incoming_burst(Burst.from_bytes(r), 1)
-                calls += 2
+            if mode == "one_by_one":
+                for r in raw:
+                    term.process_incoming_burst(Burst.from_bytes(r), 1)
+                    calls += 2
+            else:  # the whole recording is parsed first, then fed (parsed bursts must not share decoder state)
+                parsed_all = [Burst.from_bytes(r) for r in raw]
+                for pb in parsed_all:
+                    term.process_incoming_burst(pb, 1)
+                calls += 2 * len(raw)
     except Exception as e:  # noqa: BLE001
         acc.violation("exception_receiving:" + exc_sig(e), case, repr(e))
         acc.case(calls=calls)
@@ -210,10 +218,17 @@ def build_space(thorough):
 
     max_len = 1500 if thorough else 100
     rc = [(r, c) for r in ("r12", "r34", "r1") for c in (False, True)]
-    # (a) every payload length, every rate, both modes, one preamble, counter fill
-    for r, c in rc:
+    # (a) every payload length, every rate, both modes, one preamble, counter fill; the two feeding modes alternate with the length
+    for ri, (r, c) in enumerate(rc):
         for length in range(0, max_len + 1):
-            add((r, c, length, 1, 1, "counter"))
+            add((r, c, length, 1, 1, "counter", "ShortData", "one_by_one" if (length + ri) % 2 == 0 else "parse_all_then_feed"))
+        for length in range(0, 41 if not thorough else 121):
+            add((r, c, length, 1, 1, "counter", "ShortData", "one_by_one" if (length + ri) % 2 else "parse_all_then_feed"))
+    # (a2) every service access point the header can announce x short payloads (receiver-side decoding keyed on the SAP)
+    for r, c in rc:
+        for sap in ("UDT", "TCP_IP_compression", "UDP_IP_compression", "IP_PacketData", "ARP", "Proprietary", "ShortData"):
+            for length in (range(0, 13) if not thorough else range(0, 41)):
+                add((r, c, length, (length % 3), 1, "counter" if length % 2 else "zero", sap, "one_by_one"))
     bl = boundary_lengths(70 if not thorough else 200)
     # (b) preamble counts x block-boundary lengths
     for r, c in rc:
@@ -271,7 +286,7 @@ def replay(doc):
     SEAMS.install()
     bad = 0
     for c in doc.get("cases", []):
-        cfg = (c["rate"], c["confirmed"], c["length"], c["preambles"], c["colour_code"], c["fill"]) if "rate" in c else tuple(c["cfg"])
+        cfg = (c["rate"], c["confirmed"], c["length"], c["preambles"], c["colour_code"], c["fill"], c.get("sap", "ShortData"), c.get("mode", "one_by_one")) if "rate" in c else tuple(c["cfg"])
         acc = Acc()
         one_config(acc, cfg)
         print("  ", cfg, "->", {k: v[0] for k, v in acc.viol.items()} or "ok")
